@@ -5,17 +5,19 @@ PROP = "C20"
 
 
 def spec():
-    return e2e.specs_for(["threads"])
+    return e2e.specs_for(["threads", "deliver@c20"])
 
 
 def run(tier, seed):
-    return e2eprop.run(PROP, ["threads"], tier, seed, ["threads_scenarios"], ["threads_sigs"],
+    return e2eprop.run(PROP, ["threads", "deliver@c20"], tier, seed, ["threads_scenarios", "deliver_scenarios"], ["threads_sigs", "deliver_sigs"],
                        "one evaluation = one scenario of 1-5 rounds; a round creates 1..512 real threads (counts 1,7,64,255,256,257,300,512) that log 0-6 "
                        "statements and exit; mode S: the backend is not polled until all have exited, or polled occasionally / often; mode F: real backend "
                        "kept busy by a slow sink. After a logical drain (backend reported all-empty) the number of contexts seen by "
                        "ThreadContextManager::for_each_thread_context must equal the number of live threads that have logged; all statements delivered once "
                        "in order. Shrink (unbounded queues): burst, shrink_thread_local_queue(c), get_thread_local_queue_capacity() must report the new "
-                       "capacity at once, statements before and after delivered in order. distinct = (schedule signature, max exits between two idle periods)",
+                       "capacity at once, statements before and after delivered in order (mode F bursts, and shrink requests interleaved by the mode-S scheduler "
+                       "with logging, thread exits, flush requests and operations injected inside the unbounded queue's switch windows - deliver family). "
+                       "distinct = (schedule signature, max exits between two idle periods)",
                        ["contexts are counted through the public ThreadContextManager API after the backend reported idle"])
 
 
